@@ -55,7 +55,8 @@ def run(c):
     th = c.tier == "thorough"
     c.rule = ("(1) KardiaBFT: exhaustive TLC search per configuration (powers, Byzantine power < 1/3, rounds); "
               "(2) seeded real network runs (3-7 real nodes, random delivery order, drops, early timeouts, a Byzantine "
-              "validator equivocating on votes and proposals, invalid proposals), each checked for equal block stores and "
+              "validator equivocating on votes and proposals, invalid proposals; configurations with validator-set changes over 7 "
+              "heights and with restarts of correct nodes), each checked for equal block stores and "
               "validated event by event by TLC against KardiaNodeTrace (Agreement + C03 invariants); evaluations = handler "
               "steps executed on real nodes; non-trivial = the run went beyond round 1")
     c.assumptions = ["C03 (the per-validator obligations hold for the real handlers) joins the two layers; signatures bind "
@@ -103,4 +104,8 @@ def run(c):
     # layer 2
     cfgs = ["4eq-byz", "4w-byz", "4eq-byz2"] + (["5w-byz", "7eq-byz2", "3eq-nobyz", "4eq-calm"] if th else ["7eq-byz2"])
     net_runs(c, cfgs, 40 if th else 5, ("net:agreement", "net:panic"))
+    # many heights with validator-set changes (power raised, a correct validator removed and re-added, the Byzantine
+    # validator's power changed), with restarts of correct nodes, and the default configuration (WaitForTxs)
+    net_runs(c, ["4eq-change", "5w-change-restart"] + (["4eq-wait", "4w-wait-restart"] if th else []), 40 if th else 4,
+             ("net:agreement", "net:panic"))
     c.exhaustive = False
